@@ -77,6 +77,10 @@ Definition bytes_eqb (d e : list ascii) : bool := forallb2 Ascii.eqb d e.
 
 Definition is_float_name (tu : string) : bool := String.eqb tu "float32" || String.eqb tu "float64".
 
+(* deqMustSkipByType: the parent exists and is neither a map nor a slice *)
+Definition par_struct (par : option typ) : bool :=
+  match par with Some typeMap | Some typeSlice | None => false | Some _ => true end.
+
 (* the children of a struct node, in declaration order; [rec ch f g] = the code emitted for child ch *)
 Definition deq_fields (rec : node -> val -> val -> bool) : list node -> list val -> list val -> bool :=
   fix go (chs : list node) (fs gs : list val) {struct chs} : bool :=
@@ -116,7 +120,7 @@ Fixpoint deq (sh : bool) (o : option deqopts) (n : node) (par : option typ) (pat
   | Node ty tn tu nm pk pki p chld mk mv sl hb hc =>
     let path := deq_path path nm depth in
     (* deqMustSkipByType *)
-    let pstruct := match par with Some typeMap | Some typeSlice | None => false | Some _ => true end in
+    let pstruct := par_struct par in
     let isbytes := match ty with typeSlice => String.eqb tn "[]byte" | _ => false end in
     let leaf := match ty with typeBasic => true | _ => isbytes end in
     (* deqMustSkipByTypeAndPath, for struct / map / slice nodes: `if DEQMustCheck(path, opts) {` around everything *)
@@ -152,7 +156,7 @@ Fixpoint deq (sh : bool) (o : option deqopts) (n : node) (par : option typ) (pat
       | typeBasic =>
         if pstruct then
           (if is_float_name tu
-           then match x, y with VFloat a, VFloat b => equal_float a b o | _, _ => false end
+           then match x, y with VFloat a, VFloat b => equal_float a b o | _, _ => go_eqb x y (* ill-typed: not reached *) end
            else go_eqb x y) || negb (deq_must_check path o)
         else go_eqb x y
       end in
